@@ -115,8 +115,11 @@ def pump_families(pattern):
         for a in chars[:4]:
             for b in chars[:4]:
                 pumps.add(a + b)
+        # suffixes that make the whole match FAIL are what forces the engine through every alternative: the generic
+        # fail characters, every character the pattern itself mentions (a delimiter in the wrong place), and their doubles
+        sufs = FAILS[:2] + [c for c in allch] + [c + c for c in allch if not c.isalnum()]
         for p in sorted(pumps):
-            for suf in FAILS[:2] + [c for c in allch[:2]]:
+            for suf in sufs:
                 for pre in (prefix, ""):
                     k = (pre, p, suf)
                     if k not in seen:
